@@ -398,6 +398,12 @@ def check_adjust_event(ck, ev, tag="net"):
     v = np.array(ev["r"], dtype=float)
     if len(x) != ref.n or len(v) != ref.m:
         return [("%s:%s:dims" % (tag, alg), "event vectors do not match the system")], ref
+    if ev["defect"] < ref.defect:
+        # a dependent unknown that the solver did not recognise: everything that refers to the regularisation
+        # (minimum norm, cofactors) is meaningless then, only this is reported (callers add the network class)
+        bad.append(("%s:%s:defect-undercounted" % (tag, alg), "defect %d reported, n - rank = %d (kappa %.3g)" % (
+            ev["defect"], ref.defect, ref.kappa)))
+        return bad, ref
     if ev["defect"] != ref.defect:
         bad.append(("%s:%s:defect" % (tag, alg), "defect %d reported, n - rank = %d" % (ev["defect"], ref.defect)))
     A, b = ref.A, ref.b
